@@ -55,6 +55,7 @@ class DefUse:
         self.gen: Dict[int, List[Def]] = {}
         self._collect()
         self._solve()
+        self._normalise_indexing()
 
     # -------------------------------------------------------------- collect
     def _add(self, nid, name, value, sel, stmt=None):
@@ -105,6 +106,45 @@ class DefUse:
             for x in n.walk():
                 if isinstance(x, ast.NamedExpr) and isinstance(x.target, ast.Name):
                     self._add(n.id, x.target.id, x.value, ())
+
+    def _normalise_indexing(self):
+        """`t = f(x); a = t[0]; b = t[1]` is read like `a, b = f(x)`: a plain definition whose
+        value is a constant index into a local that has one plain reaching definition (a call
+        or a tuple / list display) becomes position i of that value.  Rules that tell the
+        pre- from the post-control, or the first from the second half-step propagator, by
+        the position in the returned tuple see the same thing in both spellings."""
+        changed = True
+        rounds = 0
+        while changed and rounds < 3:
+            changed = False
+            rounds += 1
+            for i, d in enumerate(self.defs):
+                v = d.value
+                if d.sel or not (isinstance(v, ast.Subscript) and isinstance(v.value, ast.Name)
+                                 and isinstance(v.slice, ast.Constant)
+                                 and isinstance(v.slice.value, int) and v.slice.value >= 0):
+                    continue
+                src = [self.defs[j] for j in self.IN.get(d.node, ()) if self.defs[j].name == v.value.id]
+                if len(src) != 1 or src[0].value is None or src[0].node == d.node:
+                    continue
+                s0 = src[0]
+                if s0.sel:
+                    continue
+                if isinstance(s0.value, (ast.Tuple, ast.List)):
+                    if v.slice.value < len(s0.value.elts):
+                        self._replace(i, Def(d.id, d.node, d.name, s0.value.elts[v.slice.value], (), d.stmt))
+                        changed = True
+                elif isinstance(s0.value, ast.Call):
+                    self._replace(i, Def(d.id, d.node, d.name, s0.value, (("idx", v.slice.value),), d.stmt))
+                    changed = True
+
+    def _replace(self, i: int, new: "Def") -> None:
+        old = self.defs[i]
+        self.defs[i] = new
+        g = self.gen.get(old.node, [])
+        for k, x in enumerate(g):
+            if x.id == old.id:
+                g[k] = new
 
     # ---------------------------------------------------------------- solve
     def _solve(self):
